@@ -149,13 +149,14 @@ def _menu(lo, hi, v):
     return hi
 
 
-def _client(rec):
+def _client(rec, features=False):
     c = irc.IRCClient()
     c.nickname = "nick"
     c.username = "user"
     c.hostname = "irc.example.org"
     c.realname = "Real Name"
-    c.supported = irc.ServerSupportedFeatures()
+    if features:
+        c.supported = irc.ServerSupportedFeatures()     # only _safeMaximumLineLength reads it
     c.sendLine = rec.append
     return c
 
@@ -236,7 +237,7 @@ def send_default(message: str) -> bool:
     # length=None: _safeMaximumLineLength; the whole line incl. the ":nick!user@host " prefix a server
     # prepends must stay within 512 octets, and short messages are only split at LF
     rec = []
-    c = _client(rec)
+    c = _client(rec, features=True)
     message = _fixlen(message, 3)
     fmt = "PRIVMSG u :"
     c.msg("u", message)
